@@ -112,6 +112,7 @@ class Builder:
         self.summarise_loops = summarise_loops  # a loop is the term loop(iterable, what one iteration computes / stores / calls) instead of an opaque region
         self.track_effects = track_effects  # calls evaluated as statements are appended to the pseudo-store "!effects" (ordered, path-sensitive)
         self.track_locals = track_locals   # item stores / deletes on local containers are recorded as stores "<name>[]"
+        self.mangle_cls = None             # set while a method of *another* class is executed in place: its `self.__x` is `self._Cls__x`
         self._epoch = 0                    # number of effectful calls executed so far on this path (see e_Attribute)
         self.stores: dict[str, object] = {}   # dotted attribute path -> term (last store on this path)
         self.effects: list = []               # (kind, detail) for calls evaluated as statements
@@ -123,6 +124,7 @@ class Builder:
                     keep_raises=self.keep_raises, track_locals=self.track_locals, track_effects=self.track_effects,
                     summarise_loops=self.summarise_loops, erase_persistence=self.erase_persistence, inline_new=self.inline_new, bind_args=self.bind_args, inline_delegation=self.inline_delegation)
         b.module_names = getattr(self, "module_names", set())
+        b.mangle_cls = self.mangle_cls
         b._epoch = self._epoch
         b.stores = dict(self.stores)
         return b
@@ -149,8 +151,17 @@ class Builder:
             return self.env[e.id]
         return sym(e.id)
 
+    def _dn(self, node):
+        """dotted name, with the private attributes of an in-place executed foreign method mangled (`self.__x` -> `self._Cls__x`)"""
+        d = dotted(node)
+        if d is not None and self.mangle_cls and d.startswith("self.__") and not d.split(".")[1].endswith("__"):
+            parts = d.split(".")
+            parts[1] = f"_{self.mangle_cls}{parts[1]}"
+            d = ".".join(parts)
+        return d
+
     def e_Attribute(self, e):
-        d = dotted(e)
+        d = self._dn(e)
         if d is not None:
             if d in self.env:
                 return self.env[d]
@@ -385,6 +396,11 @@ class Builder:
 
         args = [self.t(a) for a in e.args]
         kws = {k.arg: self.t(k.value) for k in e.keywords if k.arg is not None}
+        if self.track_effects:
+            # `f(**opts)`: what is unpacked into the call is an argument of the call
+            for i_, k in enumerate([k for k in e.keywords if k.arg is None]):
+                sv = self.t(k.value)
+                kws[f"**{i_}"] = sv if isinstance(sv, Rat) else (app("tuple", *sv) if isinstance(sv, tuple) else app("const", str(sv)))
         if any(k.arg is None for k in e.keywords) or any(isinstance(a, ast.Starred) for a in e.args):
             star = True
         else:
@@ -538,6 +554,8 @@ class Builder:
                 return None
         sub = self.child({})
         sub.func = callee
+        if callee.cls is not None and (self.func is None or self.func.cls is None or callee.cls.name != self.func.cls.name):
+            sub.mangle_cls = callee.cls.name.lstrip("_")
         sub.inline_new = self.inline_new - 1
         for n in names[len(pos):]:
             if n not in env:
@@ -692,6 +710,10 @@ class Builder:
                 return sym("j")
         if n in IDENTITY_CASTS and not is_method and args:
             return args[0] if len(args) == 1 else tuple(args)
+        if self.track_effects and n in ("zeros", "ones", "empty", "full") and not is_method and e is not None \
+                and isinstance(e.func, ast.Attribute) and dotted(e.func.value) == "torch":
+            kwt_ = tuple((k, v) for k, v in sorted(kws.items()))
+            return app("f." + n, *args, ("kw",) + kwt_) if kwt_ else app("f." + n, *args)     # torch.zeros(d0, d1): the extents are the point
         if n in ("zeros", "zeros_like") and len(args) >= 1:
             shp = kws.get("shape") if isinstance(kws, dict) else None
             if shp is not None and nf.show(shp) not in ("()", "(,)"):
@@ -918,6 +940,14 @@ class Builder:
                     nv = app("delitem", self.t(tg.value), self._slice(tg.slice))
                     self.env[d] = nv
                     self.stores[d + ("[]" if "." not in d else "")] = nv
+                elif isinstance(tg, ast.Subscript) and self.track_effects:
+                    bt = self.t(tg.value)
+                    bt = bt if isinstance(bt, Rat) else app("const", str(bt))
+                    self.stores["!effects"] = app("seq", self.stores.get("!effects", sym("!effects")), app("del_item", bt, self._slice(tg.slice)))
+                elif isinstance(tg, ast.Attribute) and self.track_effects:
+                    bt = self.t(tg.value)
+                    bt = bt if isinstance(bt, Rat) else app("const", str(bt))
+                    self.stores["!effects"] = app("seq", self.stores.get("!effects", sym("!effects")), app("del_attr", bt, app("const", tg.attr)))
         elif isinstance(st, (ast.Pass, ast.Import, ast.ImportFrom, ast.Global, ast.Nonlocal, ast.Assert, ast.Delete)):
             pass
         elif isinstance(st, ast.With):
@@ -944,7 +974,12 @@ class Builder:
                     raise Opaque("return inside loop/try/match")
         elif isinstance(st, (ast.FunctionDef, ast.ClassDef)):
             # a nested definition is identified by its name and its (canonical) text: closures are compared as written
-            self.env[st.name] = app("localdef", st.name, _canon_region_text(st) if self.track_effects else "")
+            free = ()
+            if self.track_effects:
+                bound = {a_.arg for a_ in st.args.posonlyargs + st.args.args + st.args.kwonlyargs} if isinstance(st, ast.FunctionDef) else set()
+                names_ = sorted({n_.id for n_ in ast.walk(st) if isinstance(n_, ast.Name) and isinstance(n_.ctx, ast.Load)} - bound)
+                free = tuple((n_, self.env[n_] if isinstance(self.env[n_], Rat) else app("const", str(self.env[n_]))) for n_ in names_ if n_ in self.env)
+            self.env[st.name] = app("localdef", st.name, _canon_region_text(st) if self.track_effects else "", free)
         else:
             raise Opaque(type(st).__name__)
 
@@ -981,6 +1016,9 @@ class Builder:
         def wrap(name, v):
             v = v if isinstance(v, Rat) else (app("tuple", *v) if isinstance(v, tuple) else app("const", str(v)))
             return app("loop", head, app("const", name), v, ret, carried)
+        if self.track_effects and isinstance(r, Rat) and "!effects" not in child.stores:
+            # nothing else records this loop, but an iteration may refuse (raise) or end early: that is what the loop does
+            self.stores["!effects"] = app("seq", self.stores.get("!effects", sym("!effects")), wrap("!outcome", ret))
         for v in sorted(assigned):
             if v in child.env:
                 self.env[v] = wrap(v, child.env[v])
@@ -1007,7 +1045,7 @@ class Builder:
                 for i, t_ in enumerate(tgt.elts):
                     self.assign(t_, app("index", v, C(i)))
         elif isinstance(tgt, ast.Attribute):
-            d = dotted(tgt)
+            d = self._dn(tgt)
             root = d.split(".")[0] if d is not None else None
             if d is not None and self.track_effects and root in self.env and isinstance(self.env[root], Rat) \
                     and self.env[root].as_atom() is not None and self.env[root].as_atom().op not in ("sym", "element"):
@@ -1035,6 +1073,12 @@ class Builder:
                     self.stores[d] = nv
                 elif self.track_locals:
                     self.stores[d + "[]"] = nv
+            elif self.track_effects:
+                # `self.cells_[a][b] = v`: a store into an object reached by indexing - kept as an ordered effect
+                vv = v if isinstance(v, Rat) else (app("tuple", *v) if isinstance(v, tuple) else app("const", str(v)))
+                bt = self.t(tgt.value)
+                bt = bt if isinstance(bt, Rat) else app("const", str(bt))
+                self.stores["!effects"] = app("seq", self.stores.get("!effects", sym("!effects")), app("store_item", bt, self._slice(tgt.slice), vv))
         elif isinstance(tgt, ast.Starred):
             self.assign(tgt.value, app("starred", v))
 
